@@ -87,7 +87,7 @@ for p in props:
             "quick_cmd": f"./check {pid} quick",
             "thorough_cmd": f"./check {pid} thorough",
             "evidence_file": f"evidence/{pid}.json",
-            "replay_cmd_template": ".venv/bin/python {path}",
+            "replay_cmd_template": "./check --replay {path}",
             "engine": c.get("engine", "E1-crosshair"),
             "level_claimed": {"category": c["cat"], "text": c["text"], "design_ref": c["ref"]},
             "level_note": c["note"],
